@@ -4,4 +4,7 @@ import json, sys, subprocess
 pid, suf, n = sys.argv[1], sys.argv[2], sys.argv[3]
 prop = subprocess.check_output(['python3', '/verif/tools/proptext.py', pid], text=True)
 t = open('/verif/tools/breaker_prompt.txt').read()
+focus = json.load(open('/verif/tools/breaker_focus.json')).get('%s-%s' % (pid, suf))
+if focus:
+    prop += '\nFOCUS FOR THIS ROUND (other people cover the remaining aspects of the property; all of these are aspects named by the property itself): ' + focus + '\n'
 print(t.replace('{WT}', '/tmp/brk-%s-%s' % (pid, suf)).replace('{PROPERTY}', prop).replace('{N}', n).replace('{ID}', pid.lower()))
